@@ -263,7 +263,14 @@ def member_insert_rule(ctx, cli, RID):
                 scan(n["scrut"], guards)
                 for a in n["arms"]:
                     vs = [H.last(v) for v in H.pat_variants(a["pat"])]
-                    scan(a["body"], guards + ["match:" + "|".join(vs)])
+                    # `match conversion { Ok(val) => insert, Err(_) => continue }` is the if-let form written out
+                    g = "ok-of-conversion" if vs == ["Ok"] and a.get("guard") is None else ("err-of-conversion" if vs == ["Err"] and a.get("guard") is None else "match:" + "|".join(vs))
+                    scan(a["body"], guards + [g])
+                return
+            if k == "Let" and n.get("els") is not None:
+                okpat = any((v or "").endswith("Result::Ok") for v in H.pat_variants(n["pat"]))
+                scan(n.get("init"), guards)
+                scan(n["els"], guards + ["err-of-conversion" if okpat else "other-condition"])
                 return
             if k == "MethodCall" and n["name"] == "insert" and "IndexMap" in n.get("recv_ty", ""):
                 key_ok = H.contains_local(n["args"][0], kname)
@@ -271,15 +278,17 @@ def member_insert_rule(ctx, cli, RID):
                 found = True
                 ctx.inst(RID, "parse_json_inputs#object-member-insert", key_ok and not bad,
                          "insert(key from %r: %s) under conditions %s" % (kname, key_ok, guards), H.loc(n))
-            if k in ("Continue", "Break", "Ret") and not guards:
-                ctx.inst(RID, "parse_json_inputs#loop-exit", False, "loop over object members can be left early (%s)" % k, H.loc(n))
+            if k in ("Continue", "Break", "Ret"):
+                # moving on to the next member because this one's conversion failed is what the if-let form does implicitly
+                if not (k == "Continue" and guards and all(g == "err-of-conversion" for g in guards)):
+                    exits.append("%s under %s" % (k, guards or "no condition"))
             for v in n.values():
                 if isinstance(v, (dict, list)):
                     scan(v, guards)
 
+        exits = []
         scan(lp["body"], [])
         # early exits anywhere in the loop body
-        exits = [H.kind(x) for x in H.walk(lp["body"]) if H.kind(x) in ("Continue", "Break", "Ret")]
         if exits:
             ctx.inst(RID, "parse_json_inputs#loop-exit", False, "loop over object members contains %s: some members can be skipped" % exits, H.loc(lp))
     if not found:
